@@ -321,10 +321,12 @@ class FindModuleCache:
                 use_typeshed = self._typeshed_has_version(top_level)
             result, should_cache = self._find_module(id, use_typeshed)
             if should_cache:
+                if fast_path and result is ModuleNotFoundReason.NOT_FOUND:
+                    # This answer has not been refined (see below). Don't store it, or a
+                    # later full lookup of the same module would get the coarse reason.
+                    return result
                 if (
-                    not (
-                        fast_path or (self.options is not None and self.options.fast_module_lookup)
-                    )
+                    not (self.options is not None and self.options.fast_module_lookup)
                     and result is ModuleNotFoundReason.NOT_FOUND
                     and self._can_find_module_in_parent_dir(id)
                 ):
